@@ -1,3 +1,6 @@
+pub mod common;
+pub mod c01;
+pub mod c02;
 pub mod c13;
 pub mod c16;
 pub mod c18;
